@@ -1,9 +1,11 @@
 #!/bin/bash
-# runs every claimed check (quick by default) and prints one line each
+# runs every claimed check (quick by default) and prints its result lines
 tier=${1:-quick}
-for d in /verif/harness/C*/; do
+root=${VERIF_ROOT:-/verif}
+for d in $root/harness/C*/; do
   id=$(basename $d)
   [ -f $d/check.json ] || continue
-  out=$(/verif/bin/gosym check $id --tier $tier 2>/dev/null | grep -v "^WARNING" | tail -1)
-  echo "$out"
+  start=$(date +%s)
+  $root/bin/gosym check $id --tier $tier 2>/dev/null | grep -v "^WARNING" | grep "INCONCLUSIVE\|VIOLATION\|NOTE\|$id $tier:" | cut -c1-400
+  echo "  ($id $tier took $(( $(date +%s) - start )) s)"
 done
